@@ -1,6 +1,7 @@
 (* C10: one run of a registry entry of generators.py on recorded draws.
    gn <index of the key in GENERATORS> <n> <draws>   ->   err | ok <support> <sa> <mono> v_0 ... v_{2^n-1}
    gnflags <index>                                    ->   <family_ok> <mono family> <external>
+   gnfam <index>                                      ->   family and static parameters held by the extracted registry
    draws:  factory <owner> <k> w_1..w_k <m> x_1 y_1 .. x_m y_m | owner <o> | cheer <owner> py|np <c>
          | matrix <r> (<k> x_1..x_k)*r | perm <k> p_1..p_k | weights <r> (<k> x_1..x_k)*r
          | picks <k> (p x)*k | k <k> | sets <r> (<k> e_1..e_k)*r
@@ -48,4 +49,27 @@ let cmd_gnflags (t : toks) (buf : Buffer.t) : unit =
   | None -> add buf "none"
   | Some (ok, (mono, ext)) -> add buf (b01 ok ^ " " ^ b01 mono ^ " " ^ b01 ext)
 
-let () = register "gn" cmd_gn; register "gnflags" cmd_gnflags
+(* gnfam <index> -> the family the extracted registry holds at that index (fingerprint compared with the dump) *)
+let cmd_gnfam (t : toks) (buf : Buffer.t) : unit =
+  let idx = next_int t in
+  let opt = function None -> "none" | Some k -> string_of_int (int_of_nat k) in
+  let i k = string_of_int (int_of_nat k) in
+  match List.nth_opt gn_registry_families idx with
+  | None -> add buf "absent"
+  | Some f ->
+    add buf (match f with
+      | FFactory (vf, rw, o) ->
+        "factory " ^ (match vf with VId -> "id" | VSq -> "sq" | VOne -> "one" | VExp -> "exp") ^ " " ^ b01 rw ^ " " ^ opt o
+      | FPredictible -> "predictible_factory"
+      | FCheer (o, c) -> "cheerleader " ^ opt o ^ " " ^ opt c
+      | FCheerNext -> "cheerleader_next"
+      | FGraph -> "graph"
+      | FCycle -> "cycle"
+      | FXos (k, a, b) -> "xos " ^ i k ^ " " ^ b01 a ^ " " ^ b01 b
+      | FXs k -> "xs " ^ i k
+      | FOxs (k, a) -> "oxs " ^ i k ^ " " ^ b01 a
+      | FKBudget -> "kbudget"
+      | FCoverage m -> "coverage " ^ i m
+      | FNone -> "none")
+
+let () = register "gn" cmd_gn; register "gnflags" cmd_gnflags; register "gnfam" cmd_gnfam
